@@ -1,10 +1,12 @@
 //@unit U12.4 props=C12,C02 tier=quick
 //@source name=path kind=file path=skrifa/src/outline/path.rs
-// C12 ("drawing is well-formed"): the TrueType contour-to-path conversion. For EVERY point sequence (any flags, any length,
-// both path styles, any coordinate type) contour_to_path and the PendingState machine drive the pen in the grammar
-//     ( move_to ( line_to | quad_to | curve_to )* close )?
+// C12 ("drawing is well-formed"): the TrueType outline-to-path conversion. For EVERY outline (any points, flags, contour end points,
+// both path styles, any coordinate type) to_path, contour_to_path and the PendingState machine drive the pen in the grammar
+//     ( move_to ( line_to | quad_to | curve_to )* close )*
 // - a segment or a close is never emitted outside a sub-path, a move_to never inside one - and when the function returns Ok the
-// sub-path it opened has been closed (the pen is back outside), so to_path's loop over contours starts every contour outside.
+// sub-path it opened has been closed (the pen is back outside); to_path's loop over contours therefore starts every contour outside,
+// never indexes outside the point / flag / contour arrays whatever the contour end points say, and its error-index arithmetic
+// (index within the contour + contour start) cannot overflow because an error names a point of the contour.
 // The pen is abstract: a trait whose methods carry the grammar as preconditions over a ghost `open` flag. The point iterator is an
 // opaque type (enumerate().peekable() replaced by a stub; nothing is assumed about what next/peek return), so the statement
 // holds for every input, including ones the glyph loader would never produce. Termination is not claimed (it is the iterator's).
@@ -61,17 +63,29 @@ impl<T: PointCoord> ContourPoint<T> {
 //@end
 }
 // stub iterators (ASSUMED: nothing)
+// stub iterators. ASSUMED: enumerate() numbers the items of an iterator over n items 0..n (n = `count`, a ghost); nothing about the items
 #[verifier::external_body] #[verifier::accept_recursive_types(C)] pub struct PointIter<C> { _p: core::marker::PhantomData<C> }
+impl<C> PointIter<C> { pub uninterp spec fn count(&self) -> nat; }
 #[verifier::external_body] #[verifier::accept_recursive_types(C)] pub struct PeekIter<C> { _p: core::marker::PhantomData<C> }
 impl<C: PointCoord> PeekIter<C> {
-    #[verifier::external_body] pub fn next(&mut self) -> Option<(usize, ContourPoint<C>)> { unimplemented!() }
-    #[verifier::external_body] pub fn peek(&mut self) -> Option<&(usize, ContourPoint<C>)> { unimplemented!() }
+    pub uninterp spec fn count(&self) -> nat;
+    #[verifier::external_body] pub fn next(&mut self) -> (r: Option<(usize, ContourPoint<C>)>)
+        ensures final(self).count() == old(self).count(), r is Some ==> r->Some_0.0 < old(self).count() { unimplemented!() }
+    #[verifier::external_body] pub fn peek(&mut self) -> (r: Option<&(usize, ContourPoint<C>)>)
+        ensures final(self).count() == old(self).count(), r is Some ==> r->Some_0.0 < old(self).count() { unimplemented!() }
 }
 #[verifier::external_body]
-fn peekable_enumerate_stub<C: PointCoord>(points: PointIter<C>) -> PeekIter<C> { unimplemented!() }
+fn peekable_enumerate_stub<C: PointCoord>(points: PointIter<C>) -> (r: PeekIter<C>) ensures r.count() == points.count() { unimplemented!() }
+// the (index, point) pairs stored in trailing_points, in order
 #[verifier::external_body]
-fn trailing_stub<C: PointCoord>(t: &[Option<(usize, ContourPoint<C>)>; 2]) -> PeekIter<C> { unimplemented!() }
+fn trailing_stub<C: PointCoord>(t: &[Option<(usize, ContourPoint<C>)>; 2]) -> (r: PeekIter<C>) ensures r.count() == 2 { unimplemented!() }
+pub open spec fn err_ix(e: ToPathError) -> int {
+    match e { ToPathError::ExpectedQuad(i) => i as int, ToPathError::ExpectedQuadOrOnCurve(i) => i as int, ToPathError::ExpectedCubic(i) => i as int, _ => 0 }
+}
 
+// stands for `points.iter().zip(flags).map(|(point, flags)| ContourPoint { .. })` (ASSUMED: as many items as there are points)
+#[verifier::external_body]
+fn zip_points_stub<C: PointCoord>(points: &[Point<C>], flags: &[PointFlags]) -> (r: PointIter<C>) ensures r.count() == points@.len() { unimplemented!() }
 //@require source=path seq="enum PendingState<C> { #[default] Empty, PendingQuad(ContourPoint<C>), PendingCubic(ContourPoint<C>), TwoPendingCubics(ContourPoint<C>, ContourPoint<C>), }"
 #[derive(Clone, Copy)]
 pub enum PendingState<C> {
@@ -85,7 +99,7 @@ impl<C: PointCoord> PendingState<C> {
 //@extract source=path container="impl<C> PendingState<C>" fn=emit ret=res
 //@spec
         requires old(pen).open()
-        ensures final(pen).open()
+        ensures final(pen).open(), res is Err ==> err_ix(res->Err_0) == ix
 //@end
 //@extract source=path container="impl<C> PendingState<C>" fn=finish ret=res
 //@rewrite "mut self," => "self,"
@@ -93,26 +107,43 @@ impl<C: PointCoord> PendingState<C> {
 //@rewrite "self.emit(start_ix, start_point, pen)?;" => "this.emit(start_ix, start_point, pen)?;"
 //@spec
         requires old(pen).open()
-        ensures res is Ok ==> !final(pen).open()
+        ensures res is Ok ==> !final(pen).open(), res is Err ==> err_ix(res->Err_0) == start_ix
 //@end
 }
 
 #[verifier::exec_allows_no_decreases_clause]
 //@extract source=path fn=contour_to_path ret=res
-//@rewrite "points: impl Iterator<Item = ContourPoint<C>>," => "points: PointIter<C>,"
-//@rewrite "points.enumerate().peekable()" => "peekable_enumerate_stub(points)"
+//@rewrite "points: impl Iterator<Item = ContourPoint<C>>," => "points_in: PointIter<C>,"
+//@rewrite "points.enumerate().peekable()" => "peekable_enumerate_stub(points_in)"
 //@rewrite "trailing_points.iter().filter_map(|x| *x)" => "trailing_stub(&trailing_points)"
 //@desugarfor nth=1 name=verif_trail raw
 //@desugarfor nth=0 name=verif_rest raw
 //@spec
     requires !old(pen).open()
-    ensures res is Ok ==> !final(pen).open()
+    ensures res is Ok ==> !final(pen).open(),
+        // an error names a point of this contour (or position 0 / 1 of the two deferred start points)
+        res is Err ==> err_ix(res->Err_0) < points_in.count() || err_ix(res->Err_0) <= 1
 //@at loop "while let Some((ix, point)) = points.next()"
-            invariant pen.open()
+            invariant pen.open(), points.count() == points_in.count()
 //@at loop "let mut verif_rest ="
-            invariant pen.open()
+            invariant pen.open(), verif_rest.count() == points_in.count()
 //@at loop "let mut verif_trail ="
-        invariant pen.open()
+        invariant pen.open(), verif_trail.count() == 2
+//@end
+
+#[verifier::exec_allows_no_decreases_clause]
+//@extract source=path fn=to_path ret=res
+//@rewrite "points.iter().zip(flags).map(|(point, flags)| ContourPoint { x: point.x, y: point.y, flags: *flags, })" => "zip_points_stub(points, flags)"
+//@desugarfor nth=0 name=verif_c raw
+//@spec
+    requires !old(pen).open()
+    ensures res is Ok ==> !final(pen).open()
+//@closure nth=0
+-> (o: usize) requires contour_ix > 0, contour_ix - 1 < contours@.len() ensures o == contours@[contour_ix - 1] as usize + 1
+//@closure nth=1
+-> (o: ToPathError) requires err_ix(e) + start_ix <= usize::MAX
+//@at loop "let mut verif_c ="
+        invariant !pen.open(), verif_c.end == contours@.len()
 //@end
 }
 fn main() {}
